@@ -53,7 +53,7 @@ type Config struct {
 	Max    int64  `json:"max"`   // -1: no maximum declared
 	Limit  int64  `json:"limit"` // -1: WithMemoryLimitPages not called (documented default 65536)
 	CapMax bool   `json:"cap_from_max"`
-	Alloc  string `json:"alloc"` // default | slice | mmap
+	Alloc  string `json:"alloc"` // default | slice | mmap | reserve | guard (see allocator)
 	Shared bool   `json:"shared,omitempty"`
 	// Imported: the memory is defined and exported by a second module "m" and imported by the
 	// guest (the compiler addresses an imported memory through a different path).
@@ -149,8 +149,11 @@ func (c Config) verdict() string {
 
 // heapPages is the number of pages the Go heap must provide at instantiation.
 func (c Config) heapPages() uint32 {
-	if c.Alloc == "mmap" {
+	if c.Alloc == "mmap" || c.Alloc == "guard" {
 		return 0
+	}
+	if c.Alloc == "reserve" {
+		return c.bound() // the whole maximum is allocated and poisoned up front
 	}
 	if c.CapMax || (c.Shared && c.Alloc == "default") {
 		return c.bound()
@@ -167,14 +170,23 @@ func (c Config) heavy() bool {
 
 // cheapGrow: growing never copies or zeroes Go heap memory.
 func (c Config) cheapGrow() bool {
-	return c.Alloc == "mmap"
+	return c.Alloc == "mmap" || c.Alloc == "guard" || c.Alloc == "reserve"
 }
 
 // ---------------------------------------------------------------- allocators
 
+// allocator kinds:
+//
+//	slice    Go slices, cap == len, moves on every grow and poisons the old buffer
+//	mmap     reserves the maximum read-write, grows in place (cap > len, fresh pages are zero)
+//	reserve  allocates the maximum up front filled with 0xde, returns buf[:size:max] and zeroes
+//	         exactly [old size, new size) in Reallocate: spare capacity that is NOT zero
+//	guard    reserves the maximum PROT_NONE and makes exactly [0, size) accessible in Reallocate:
+//	         touching a page the allocator was not asked for kills the process (journaled case)
 type allocStats struct {
 	mu       sync.Mutex
 	problems []string
+	mems     []*linMem // in Allocate order
 	live     map[*linMem]bool
 	allocs   int
 	frees    int
@@ -191,6 +203,8 @@ type linMem struct {
 	full  []byte // mmap: whole reservation
 	max   uint64
 	freed bool
+	cur   uint64 // size of the last Reallocate
+	calls int
 }
 
 func newAllocator(kind string) *allocator {
@@ -210,22 +224,33 @@ func (a *allocator) Allocate(capacity, max uint64) experimental.LinearMemory {
 		a.problem("Allocate(cap=%d, max=%d): capacity above the maximum", capacity, max)
 	}
 	switch a.kind {
-	case "mmap":
+	case "mmap", "guard":
 		n := max
 		if n == 0 {
 			n = pageSize
 		}
-		b, err := syscall.Mmap(-1, 0, int(n), syscall.PROT_READ|syscall.PROT_WRITE, syscall.MAP_ANON|syscall.MAP_PRIVATE|syscall.MAP_NORESERVE)
+		prot := syscall.PROT_READ | syscall.PROT_WRITE
+		if a.kind == "guard" {
+			prot = syscall.PROT_NONE
+		}
+		b, err := syscall.Mmap(-1, 0, int(n), prot, syscall.MAP_ANON|syscall.MAP_PRIVATE|syscall.MAP_NORESERVE)
 		if err != nil {
 			panic(fmt.Sprintf("harness: mmap %d: %v", n, err))
 		}
 		m.full = b
+		m.buf = b[:0]
+	case "reserve":
+		b := make([]byte, max)
+		for i := range b {
+			b[i] = 0xde
+		}
 		m.buf = b[:0]
 	default:
 		m.buf = make([]byte, 0, capacity)
 	}
 	a.st.mu.Lock()
 	a.st.live[m] = true
+	a.st.mems = append(a.st.mems, m)
 	a.st.allocs++
 	a.st.mu.Unlock()
 	return m
@@ -244,9 +269,29 @@ func (m *linMem) Reallocate(size uint64) []byte {
 	if size < uint64(len(m.buf)) {
 		m.a.problem("Reallocate(%d) shrinks from %d", size, len(m.buf))
 	}
-	if m.a.kind == "mmap" {
+	m.a.st.mu.Lock()
+	prevSize := m.cur
+	m.cur, m.calls = size, m.calls+1
+	m.a.st.mu.Unlock()
+	switch m.a.kind {
+	case "mmap":
 		m.buf = m.full[:size]
 		return m.buf
+	case "guard":
+		if size > prevSize {
+			if err := syscall.Mprotect(m.full[prevSize:size], syscall.PROT_READ|syscall.PROT_WRITE); err != nil {
+				panic(fmt.Sprintf("harness: mprotect: %v", err))
+			}
+		}
+		m.buf = m.full[:size:len(m.full)]
+		return m.buf
+	case "reserve":
+		b := m.buf[:size:cap(m.buf)]
+		for i := prevSize; i < size; i++ {
+			b[i] = 0
+		}
+		m.buf = b
+		return b
 	}
 	if size <= uint64(cap(m.buf)) {
 		m.buf = m.buf[:size]
@@ -278,6 +323,16 @@ func (m *linMem) Free() {
 		m.full = nil
 	}
 	m.buf = nil
+}
+
+// known returns the size the k-th allocated memory was last asked for.
+func (a *allocator) known(k int) (size uint64, ok bool) {
+	a.st.mu.Lock()
+	defer a.st.mu.Unlock()
+	if k < 0 || k >= len(a.st.mems) {
+		return 0, false
+	}
+	return a.st.mems[k].cur, true
 }
 
 // release unmaps whatever wazero did not free (harness hygiene, not an oracle).
@@ -669,6 +724,8 @@ type runner struct {
 	m  *model
 	c  Config
 	mb *model // memory of the callee module b (X == "own")
+	// ldfn is the guest export used for byte loads from this runner's memory ("" = ld8_0)
+	ldfn string
 }
 
 // mx is the model of the memory the callee's code works on.
@@ -684,7 +741,7 @@ func (r *runner) bview() *runner {
 	if r.c.X != "own" {
 		return r
 	}
-	return &runner{in: &instance{cfg: r.c, mem: r.in.bmem}, m: r.mb, c: r.c}
+	return &runner{in: &instance{cfg: r.c, mem: r.in.bmem, mod: r.in.mod, fn: r.in.fn}, m: r.mb, c: r.c, ldfn: "xld8"}
 }
 
 // checkCalleeSizes: the callee's memory.size reached through the guest wrapper, entered
@@ -741,7 +798,30 @@ func (r *runner) checkSizes(when string) *failure {
 	if !ok || g0 != r.m.pages {
 		return failf("%s: host Memory.Grow(0) = (%d,%v), model has %d pages", when, g0, ok, r.m.pages)
 	}
+	if f := r.checkAllocatorSizes(when); f != nil {
+		return f
+	}
 	return r.checkCalleeSizes(when)
+}
+
+// checkAllocatorSizes: the custom allocator was asked (LinearMemory.Reallocate) for exactly the
+// current size of every memory: memories are allocated in instantiation order (callee b first).
+func (r *runner) checkAllocatorSizes(when string) *failure {
+	al := r.in.alloc
+	if al == nil {
+		return nil
+	}
+	k := 0
+	if r.c.X == "own" {
+		if sz, ok := al.known(0); !ok || sz != r.mb.size() {
+			return failf("%s: module b's memory has %d pages (%d bytes) but the last LinearMemory.Reallocate of its allocator asked for %d bytes (allocated=%v): the memory changed size without the allocator", when, r.mb.pages, r.mb.size(), sz, ok)
+		}
+		k = 1
+	}
+	if sz, ok := al.known(k); !ok || sz != r.m.size() {
+		return failf("%s: the memory has %d pages (%d bytes) but the last LinearMemory.Reallocate of its allocator asked for %d bytes (allocated=%v): the memory changed size without the allocator", when, r.m.pages, r.m.size(), sz, ok)
+	}
+	return nil
 }
 
 // window compares memory [a, a+n) (clipped to the model size) with the model through host Read.
@@ -781,6 +861,22 @@ func (r *runner) afterGrow(when string, prev uint32) *failure {
 		return f
 	}
 	lo, hi := uint64(prev)<<16, r.m.size()
+	// new pages read as zero through guest loads as well
+	if r.in.mod != nil && hi > lo {
+		ld := r.ldfn
+		if ld == "" {
+			ld = "ld8_0"
+		}
+		for _, a := range []uint64{lo, lo + pageSize - 1, hi - 1} {
+			res, o := r.in.call(ld, a)
+			if o.Kind != wz.KOK || len(res) != 1 {
+				return failf("%s: guest load8_u(%#x) inside the new pages failed: %v", when, a, o)
+			}
+			if w := r.m.get(a); byte(res[0]) != w {
+				return failf("%s: guest load8_u(%#x) inside the new pages = %#x, expected %#x (new pages must read as zero)", when, a, res[0], w)
+			}
+		}
+	}
 	if hi-lo <= 8*pageSize {
 		return r.window(when+" (new pages)", lo, hi-lo)
 	}
@@ -1822,7 +1918,7 @@ var (
 	pageVals  = []uint32{0, 1, 2, 3, 7, 100, 32768, 40000, 65534, 65535, 65536}
 	maxVals   = []int64{-1, 0, 1, 2, 3, 7, 100, 32768, 40000, 65534, 65535, 65536, 65537, 0xffffffff}
 	limitVals = []int64{-1, 0, 1, 2, 3, 8, 100, 40000, 65534, 65535, 65536}
-	allocs    = []string{"default", "slice", "mmap"}
+	allocs    = []string{"default", "slice", "mmap", "reserve", "guard"}
 )
 
 func genConfig(t *rapid.T) Config {
@@ -2319,6 +2415,9 @@ func TestConfigs(t *testing.T) {
 									continue
 								}
 								c := Config{Engine: eng, Min: mn, Max: mx, Limit: lm, CapMax: cm, Alloc: al, Shared: sh}
+								if (al == "reserve" || al == "guard") && c.verdict() == "reject" {
+									continue // rejection happens before any allocator is involved: enumerated with the other three
+								}
 								if excludedCfg(c) {
 									lab["excluded-compiler-65536-pages"]++
 									continue
